@@ -355,6 +355,99 @@ def tauleap_stats(rep, tier, seed):
                                                       "sum_sq_dev": round(sq, 2)})
 
 
+def leap_drift_check(rep, rng, n_models, n_seeds, n_steps, label, chem_p=0.25, dt=0.02):
+    """Tau-leap, any model shape: over many recorded steps x -> x', the summed deviation of every entry from its expected
+    change dt * sum_channels rate(x) * effect (rates = the exact generator TLC computes for each visited state, effect with
+    the chemostat exemptions) stays within a Bernstein bound; an entry no enabled channel can change must not change at all."""
+    import ctypes
+    from ..vlib import build
+    lib = ctypes.CDLL(build.build_engine("plain"))
+    runs = []
+    for k in range(n_models):
+        m = rd_model.random_model(rng, chem_p=chem_p, max_mol=6, max_order=2)
+        if m.chem is not None and rng.random() < 0.5:
+            m.chem = None
+        trs = []
+        for sd in range(n_seeds):
+            tr, ts, traj = rd_rec.record_run(lib, m, "tauleap", rng.randint(0, 2 ** 31 - 1), n_steps, dt=dt, cap=200)
+            trs.append(tr)
+        runs.append((m, trs))
+    items = []
+    for m, trs in runs:
+        seen = {}
+        for tr in trs:
+            for st in tr["states"][:-1]:
+                if all(v >= 0 for row in st for v in row):
+                    seen.setdefault(json.dumps(st), st)
+        c = dict(m.spec_cfg())
+        c["states"] = list(seen.values())
+        items.append(c)
+    rates = rd_eval.evaluate("rates", items, rep)
+    L = math.log(2 / DELTA)
+    for (m, trs), c, rt in zip(runs, items, rates):
+        cfg = m.spec_cfg()
+        nC, nS = cfg["nC"], cfg["nS"]
+        nbr = _neighbour_table(m)
+        drift, var = {}, {}
+        for st, r in zip(c["states"], rt):
+            dr = [[0.0] * nS for _ in range(nC)]
+            va = [[0.0] * nS for _ in range(nC)]
+            for i in range(nC):
+                for ri, a in enumerate(r["reac"][i]):
+                    if a[0] > 0:
+                        eff = _delta_of(cfg, nbr, ("r", i, ri))
+                        for ii in range(nC):
+                            for s in range(nS):
+                                dr[ii][s] += a[0] / a[1] * eff[ii][s]
+                                va[ii][s] += a[0] / a[1] * eff[ii][s] ** 2
+                for s in range(nS):
+                    for n, a in enumerate(r["diff"][i][s]):
+                        if a[0] > 0:
+                            eff = _delta_of(cfg, nbr, ("d", i, s, n))
+                            for ii in range(nC):
+                                dr[ii][s] += a[0] / a[1] * eff[ii][s]
+                                va[ii][s] += a[0] / a[1] * eff[ii][s] ** 2
+            drift[json.dumps(st)] = (dr, va)
+        S = [[0.0] * nS for _ in range(nC)]
+        V = [[0.0] * nS for _ in range(nC)]
+        frozen_bad = None
+        steps = 0
+        for tr in trs:
+            sts = tr["states"]
+            for k in range(len(sts) - 1):
+                key = json.dumps(sts[k])
+                if key not in drift:
+                    break                      # a negative amount appeared: beyond the master equation, stop using this run
+                dr, va = drift[key]
+                steps += 1
+                for i in range(nC):
+                    for s in range(nS):
+                        d = sts[k + 1][i][s] - sts[k][i][s]
+                        S[i][s] += d - dt * dr[i][s]
+                        V[i][s] += dt * va[i][s]
+                        if va[i][s] == 0 and d != 0 and frozen_bad is None:
+                            frozen_bad = (i, s, sts[k], sts[k + 1])
+        rep.case(["leap-drift", label, m.key()], nontrivial=steps > 0)
+        if frozen_bad:
+            i, s, a, b = frozen_bad
+            flagged = bool(cfg["chs"][i][s])
+            rep.violation("leap-drift/" + label, "leap:entry-changed-without-channel:" + ("chemostated" if flagged else "free"),
+                          {"cell": i, "species": s, "before": a, "after": b, "model": m.strengths_dict()})
+            continue
+        for i in range(nC):
+            for s in range(nS):
+                t = math.sqrt(2 * V[i][s] * L) + 4 * L / 3
+                if abs(S[i][s]) > t:
+                    rep.violation("leap-drift/" + label, "leap:drift:" + ("chemostated" if cfg["chs"][i][s] else "free-entry"),
+                                  {"cell": i, "species": s, "summed_deviation": S[i][s], "tolerance": t, "steps": steps,
+                                   "model": m.strengths_dict()})
+                    break
+            else:
+                continue
+            break
+    rep.extra.setdefault("leap_drift", []).append({"label": label, "models": n_models, "seeds": n_seeds, "steps_per_run": n_steps})
+
+
 def run(tier, selftest=False, only=None):
     rep = Report(PROP, tier)
     rep.rule = ("model: all behaviours (Gillespie events to depth 5, tau-leap bags of two events to depth 2) of a seeded "
@@ -384,6 +477,9 @@ def run(tier, selftest=False, only=None):
     if sel("stats"):
         gillespie_stats(rep, tier, seed)
         tauleap_stats(rep, tier, seed)
+        rng = random.Random(seed * 911 + 78)
+        n, sd, st = (40, 16, 30) if tier == "quick" else (300, 40, 40)
+        leap_drift_check(rep, rng, n, sd, st, "random-models")
     if selftest:
         self_test(rep)
     return rep.finish()
